@@ -69,8 +69,12 @@ func (f *ChangeClass) Call(s *slip.Scope, args slip.List, depth int) slip.Object
 	case *StandardObject:
 		ti.Type = class.(isStandardClass)
 		ti.vars = map[string]slip.Object{}
-		sdm := ti.Type.slotDefMap()
-		for name, sd := range sdm {
+		// All the slots of the new class, inherited ones included.
+		for _, sd := range ti.Type.allSlotsDefs() {
+			if sd.classStore {
+				continue // held by the class and not the instance
+			}
+			name := sd.name
 			sym := slip.Symbol(name)
 			if v, has := dup.SlotValue(sym); has {
 				ti.vars[name] = v
